@@ -584,6 +584,48 @@ func addrRoot(v ssa.Value) (ssa.Value, []string) {
 	}
 }
 
+// trialEncodingOnly reports whether an allocated RA is only filled in and
+// handed to ndp.MarshalMessage (whose bytes go nowhere but a length/err test is
+// not checked here: the RA value itself escapes to nothing else).
+func trialEncodingOnly(al *ssa.Alloc) bool {
+	if al.Referrers() == nil {
+		return false
+	}
+	toMarshal := false
+	for _, r := range *al.Referrers() {
+		switch x := r.(type) {
+		case *ssa.FieldAddr:
+			// only stores into the fields
+			if x.Referrers() != nil {
+				for _, rr := range *x.Referrers() {
+					if st, ok := rr.(*ssa.Store); !ok || st.Addr != ssa.Value(x) {
+						return false
+					}
+				}
+			}
+		case *ssa.MakeInterface:
+			if x.Referrers() == nil {
+				return false
+			}
+			for _, rr := range *x.Referrers() {
+				call, ok := rr.(*ssa.Call)
+				if !ok {
+					return false
+				}
+				fo := an.CalleeObj(&call.Call)
+				if fo == nil || fo.Name() != "MarshalMessage" || fo.Pkg() == nil || fo.Pkg().Path() != PkgNDP {
+					return false
+				}
+				toMarshal = true
+			}
+		case *ssa.DebugRef:
+		default:
+			return false
+		}
+	}
+	return toMarshal
+}
+
 func c01Single(c *Ctx) {
 	ra := c.P.Method("internal/config", "Interface", "RouterAdvertisement")
 	n := 0
@@ -591,6 +633,9 @@ func c01Single(c *Ctx) {
 		for _, b := range fn.Blocks {
 			for _, in := range b.Instrs {
 				if al, ok := in.(*ssa.Alloc); ok && strings.HasSuffix(typeStr(al.Type()), "*ndp.RouterAdvertisement") && al.Heap {
+					if trialEncodingOnly(al) {
+						continue // a scratch RA that only ever reaches ndp.MarshalMessage (size check of an option): never sent, never returned
+					}
 					n++
 					okFrom, _ := c.reachedOnlyFrom(fn, func(root *ssa.Function) bool { return root == ra })
 					c.R.Check(okFrom, "R-C01-5", c.fname(fn)+":constructs-RouterAdvertisement", c.fname(fn), c.pos(al.Pos()), "RA literal in "+c.fname(fn), "only Interface.RouterAdvertisement builds RAs", "an RA that does not come from the configuration can be sent or reported")
